@@ -1,6 +1,11 @@
 """Gen/EmitSites.v (property C09): quoting discipline at every emission site of the schema-to-code generator.
 Extracted from the C09 builder's additions to harness/gen.py; plug-in of harness.gen.regenerate()."""
 import ast
+import collections
+import copy
+import datetime
+import inspect
+import typing
 import os
 import sys
 
